@@ -1,4 +1,5 @@
 import OptunaVerif.Lemmas.Queue
+import OptunaVerif.Lemmas.InMemoryCursor
 import OptunaVerif.Props.C01
 /-!
 # C04 — a queued trial is handed to exactly one worker
@@ -179,6 +180,39 @@ theorem no_skip_step (sys : Sys) (w t : Nat) (rest : List Nat)
     rw [heq] at hsucc; simp at hsucc
   · rename_i h1 _ _ _
     exact h1 hsucc
+
+/-! ## the in-memory shortcut for listing the queue is exact -/
+
+namespace Cursor
+open OptunaVerif.InMemoryCursor
+
+def runOps (s : St) (ops : List InMemoryCursor.Op) : St := ops.foldl (fun s op => (InMemoryCursor.step s op).1) s
+
+theorem inv_run (s : St) (ops : List InMemoryCursor.Op) (h : InMemoryCursor.Inv s) : InMemoryCursor.Inv (runOps s ops) := by
+  induction ops generalizing s with
+  | nil => exact h
+  | cons op ops ih => exact ih _ (InMemoryCursor.inv_step s op h)
+
+/-- **cursor_sound**: after any history of trial creations (in any state), state changes (incl.
+RUNNING→WAITING) and earlier listings, `InMemoryStorage.get_all_trials(states=(WAITING,))` — which
+only scans from its cursor — returns exactly all WAITING trials, in number order. -/
+theorem cursor_sound (ops : List InMemoryCursor.Op) :
+    (InMemoryCursor.step (runOps ⟨[], 0⟩ ops) .getWaiting).2 = some (allWaiting (runOps ⟨[], 0⟩ ops)) := by
+  have h := inv_run ⟨[], 0⟩ ops ⟨Nat.le_refl _, by intro j st hj; exact absurd hj (Nat.not_lt_zero j)⟩
+  simp only [InMemoryCursor.step]
+  rw [scan_eq_all _ h]
+
+/-- Without lowering the cursor on a →WAITING transition (the code before the F11 repair) the
+theorem is false: a trial set back to WAITING below the cursor is not listed. -/
+theorem cursor_unsound_without_repair :
+    let ops : List InMemoryCursor.Op := [.create .running, .getWaiting, .setState 0 .waiting]
+    let s := ops.foldl (fun s op => (stepNoRepair s op).1) ⟨[], 0⟩
+    (stepNoRepair s .getWaiting).2 = some [] ∧ allWaiting s = [0] := by decide
+
+example : (InMemoryCursor.step (runOps ⟨[], 0⟩ [.create .running, .getWaiting, .setState 0 .waiting]) .getWaiting).2 = some [0] := by
+  decide
+
+end Cursor
 
 /-! ## non-vacuity -/
 
